@@ -147,9 +147,10 @@ def deepNesting (lang : String) (cs : List Char) : Bool :=
   else false
 
 /-- (what the implementation does, signature) for a recognised shape -/
-def knownDeviation (lang _db : String) (cs : List Char) : Option (String × String) :=
-  if deepNesting lang cs then some ("abort", "deep-nesting-stack-overflow")
-  else none
+def knownDeviation (_lang _db : String) (_cs : List Char) : Option (String × String) :=
+  -- deep nesting used to overflow the stack (`deepNesting`: the measured thresholds); the parsers
+  -- and the plan now carry depth limits and answer with an error, so nothing deviates here
+  none
 
 def handle (args : List String) : Option Proto.Out :=
   match args with
